@@ -156,3 +156,125 @@ class ArmHarness:
     def result_reg(self, e, a_vm, r=0):
         vm = e.st.store[a_vm]
         return vm.fields[2].items[r]
+
+
+# ------------------------------------------------------------------------------------------------
+# generic arm obligation
+# ------------------------------------------------------------------------------------------------
+NAN_BITS = z3.BitVecVal(0x7ff8000000000000, 64)
+ONE_BITS = z3.BitVecVal(0x3ff0000000000000, 64)
+ZERO_BITS = z3.BitVecVal(0, 64)
+
+
+def sym_to_number_bits(d, b, xbits):
+    """ToNumber of a primitive operand, as an IEEE bit pattern"""
+    return z3.If(d == 0, NAN_BITS, z3.If(d == 1, ZERO_BITS, z3.If(d == 2, z3.If(b, ONE_BITS, ZERO_BITS), xbits)))
+
+
+def sym_to_number_fp(d, b, xbits):
+    return z3.If(d == 0, z3.fpNaN(F64), z3.If(d == 1, z3.FPVal(0.0, F64),
+                 z3.If(d == 2, z3.If(b, z3.FPVal(1.0, F64), z3.FPVal(0.0, F64)), z3.fpBVToFP(xbits, F64))))
+
+
+def py_to_number(kind, b, x):
+    return [float('nan'), 0.0, 1.0 if b else 0.0, x][kind]
+
+
+def model_operand(m, o):
+    _, d, b, xbits = o
+    kind = m.eval(d, model_completion=True).as_long()
+    bv = z3.is_true(m.eval(b, model_completion=True))
+    bits = m.eval(xbits, model_completion=True).as_long()
+    return kind, bv, bits
+
+
+def same_js(a, b):
+    """concrete comparison of two results (floats: NaN == NaN, +0 != -0; bools)"""
+    if isinstance(a, float) and isinstance(b, float):
+        if math.isnan(a) or math.isnan(b):
+            return math.isnan(a) and math.isnan(b)
+        return a == b and math.copysign(1, a) == math.copysign(1, b)
+    return a == b and type(a) == type(b)
+
+
+def reply_value(o):
+    if 'panic' in o:
+        return 'panic: ' + o['panic']
+    if o.get('ok') and 'value' in o:
+        v = o['value']
+        if v['t'] == 'number':
+            return bits_f64(int(v['bits'], 16))
+        if v['t'] == 'boolean':
+            return bool(v['v'])
+        return v['t']
+    return repr(o)
+
+
+def check_arm(rep, ex, h, pid, name, nops, oracle, js_src, py_oracle, cross, domain_txt):
+    """oracle(ops) -> ('int', bv32, signed) | ('fp', fp term) | ('bool', z3 Bool)   over operands ops=[(v,d,b,xbits)]
+    js_src(literals) -> program text;  py_oracle(py operand values (kind,b,float)) -> float|bool"""
+    ends, ops, a_vm = h.run_arm(name, nops)
+    key = '%s/execute_op/%s/wrong-result' % (pid, name)
+    state = {'reported': False}
+
+    def concrete_cex(m, what):
+        mo = [model_operand(m, o) for o in ops]
+        lits = [js_literal(*x) for x in mo]
+        src = js_src(lits)
+        want = py_oracle([(kd, bb, bits_f64(xb)) for kd, bb, xb in mo])
+        outs = [driver.replay([{'cmd': 'eval', 'src': src}], prof)[0] for prof in ('dev', 'release')]
+        rep.validated += 2
+        gots = [reply_value(o) for o in outs]
+        if same_js(gots[0], want) and same_js(gots[1], want):
+            rep.inconc('%s: counterexample %s does not reproduce on the real build (got %r)' % (what, src, gots))
+            return
+        p = rep.write_replay('arm-%s' % name, {'cmd': 'eval', 'src': src, 'expected': repr(want), 'observed_dev': repr(gots[0]),
+                                               'observed_release': repr(gots[1])})
+        rep.violation(key, '%s evaluates to %r (dev) / %r (release), ECMAScript says %r' % (src, gots[0], gots[1], want), p)
+
+    panics = [e for e in ends if e.status == 'panic']
+    for e in panics[:1]:
+        r, m = ex.check_sat_pc(e.st.pc, [])
+        rep.obligation('arm %s: no arithmetic panic (%s)' % (name, e.detail[:80]), 'sat', domain_txt, 0.0)
+        concrete_cex(m, 'arm %s panic path' % name)
+        state['reported'] = True
+    ends = [e for e in ends if e.status != 'panic']
+    if not common.require_clean(rep, ends, 'arm ' + name):
+        return
+    rep.vacuity.append('arm %s: %d feasible paths reach the assertion' % (name, len(ends)))
+    for k, e in enumerate(ends):
+        res = h.result_reg(e, a_vm)
+        exp = oracle(ops)
+        okret = isinstance(e.value, EnumV) and e.value.discr == 0 and e.value.payload[0][0].discr == 0
+        if not okret or not isinstance(res.discr, int):
+            rep.inconc('arm %s path %d: unexpected result shape %r / %r' % (name, k, e.value, res))
+            continue
+        if exp[0] == 'bool':
+            if res.discr != 2:
+                neq = z3.BoolVal(True)
+            else:
+                neq = res.payload[2][0].e != exp[1]
+        else:
+            if res.discr != 3:
+                neq = z3.BoolVal(True)
+            else:
+                gotv = res.payload[3][0]
+                if exp[0] == 'int':
+                    ebv, esigned = exp[1], exp[2]
+                    if gotv.src is not None and gotv.src[1] == esigned and gotv.src[0].size() == 32:
+                        neq = gotv.src[0] != ebv       # i32/u32 -> f64 is exact and injective
+                    else:
+                        neq = z3.Not(gotv.e == (i32_to_f64(ebv) if esigned else u32_to_f64(ebv)))
+                else:
+                    neq = z3.Not(gotv.e == exp[1])
+        import time as _t
+        t = _t.time()
+        r, m = ex.check_sat_pc(e.st.pc, [neq])
+        what = 'arm %s path %d: result register == ECMAScript' % (name, k)
+        rep.obligation(what, r, domain_txt, _t.time() - t)
+        if r == 'unsat':
+            cross.append((what, list(e.st.pc) + [neq], 'unsat'))
+        elif not state['reported']:
+            state['reported'] = True
+            concrete_cex(m, what)
+    rep.sample({'kernel': 'execute_op arm ' + name, 'paths': len(ends), 'operands': domain_txt})
